@@ -52,6 +52,7 @@ theorem C06_table_sound : TablesOk Generated.tables where
   importsStrict := rfl
   importsCopied := rfl
   sigStrict := rfl
+  cmpStrict := rfl
 
 /-- the meaning (as a mathematical constant) of a `KNOWN_CONSTANTS` key / value text -/
 def pyConstMeaning : String → Option String
@@ -116,6 +117,43 @@ theorem C06_rename_perm_sound (P : Prog) (d : FnDef) (f1 f2 : Nat) (σ : List St
     evalS (envOf (σ.zip vs)) e = some v :=
   C06_rename_names_sound P d f1 f2 σ e vs v (hperm.nodup_iff.mpr hnd) (by rw [hperm.length_eq]; exact hlen) htr hpy
 
+/-- **Every comparison operator is translated or refused.**  `Generated.cmpClasses` = the subclasses of `ast.cmpop` of the
+running interpreter, `Generated.cmpTranslated` = the classes the `elif` chain of the Compare branch tests, `cmpStrict` = the
+chain ends in `else: raise NotImplementedError`.  A chain that contains an operator outside the table (`is`, `is not`, `in`,
+`not in`: `CmpOp.other`) is refused whatever its position and whatever else it contains (F-C06-19: the link used to be
+dropped, `1.0 if a < b is c else 2.0` became `Piecewise((1.0, a < b), (2.0, True))`).  Soundness for such chains therefore
+rests on this refusal and not on `pyCmp .other = none` (the model has no value for identity / membership tests). -/
+theorem C06_cmp_other_refused (l r : SExpr) :
+    (cmpOne Generated.tables .other l r).toOption = none ∧
+    Generated.cmpClasses.all (fun c => Generated.cmpTranslated.contains c || Generated.tables.cmpStrict) = true ∧
+    Generated.cmpTranslated.all (Generated.cmpClasses.contains ·) = true := by
+  refine ⟨by rfl, by decide, by decide⟩
+
+theorem C06_cmp_chain_with_other_refused (prev : SExpr) (ops1 ops2 : List CmpOp) (rs : List SExpr)
+    (hlen : rs.length = (ops1 ++ CmpOp.other :: ops2).length) :
+    (cmpChain Generated.tables prev (ops1 ++ CmpOp.other :: ops2) rs).toOption = none := by
+  induction ops1 generalizing prev rs with
+  | nil =>
+    cases rs with
+    | nil => simp at hlen
+    | cons r rs =>
+      simp only [List.nil_append, cmpChain, bind, Except.bind]
+      have : cmpOne Generated.tables .other prev r = .error (.refused "NotImplementedError: comparison operator") := rfl
+      rw [this]; rfl
+  | cons op ops ih =>
+    cases rs with
+    | nil => simp at hlen
+    | cons r rs =>
+      simp only [List.cons_append, cmpChain, bind, Except.bind]
+      cases hc : cmpOne Generated.tables op prev r with
+      | error e => rfl
+      | ok c =>
+        have := ih r rs (by simpa using hlen)
+        simp only []
+        cases hcs : cmpChain Generated.tables r (ops ++ CmpOp.other :: ops2) rs with
+        | error e => rfl
+        | ok cs => rw [hcs] at this; simp [Except.toOption] at this
+
 /-- **What is not a plain module-level `def` is bound soundly or refused** (facts read from the entry of `fn_to_sympy`): a
 function object whose source is another function's — a decorator that wraps, `inspect.getsource` follows `__wrapped__` —
 is refused (F-C06-17); the free variables of a closure are bound to the numbers in its cells, like function-local
@@ -123,7 +161,8 @@ constants, and closing over anything else is refused (F-C06-18).  In the model a
 of a number (covered by `C06_sound`), the refusals are `unhandled` statements (`C06_unlisted_stmt_refused`); lambdas, nested
 `def`s, `functools.partial` objects and calls that rely on default values are refused by the dispatch lists and the strict
 `zip` (`C06_unlisted_expr_refused`, `callKw`). -/
-theorem C06_entry_facts_generated : Generated.wrappedRefused = true ∧ Generated.closuresFromCells = true := by decide
+theorem C06_entry_facts_generated :
+    Generated.wrappedRefused = true ∧ Generated.closuresFromCells = true ∧ Generated.exprStmtConstOnly = true := by decide
 
 /-- **Nested calls.** The translation of `g(args)` is the translation of `g`'s body — started with *empty* import
 tables: the callee never sees the caller's function-local imports — with the translated arguments substituted
@@ -189,7 +228,7 @@ theorem C06_old_witnesses_now :
 
 /-- the tables of the code before the three repairs -/
 def preRepairTables : Tables :=
-  { Generated.tables with branchCopies := false, fallThroughChecked := false, testsBoolean := false }
+  { Generated.tables with cmpStrict := false, branchCopies := false, fallThroughChecked := false, testsBoolean := false }
 
 example :
     fnToSympy preRepairTables [leakFn] 20 leakFn none
